@@ -92,6 +92,31 @@ def run_check(prop, tier, seed, replay=None):
         elif mon_vo:
             broken.append({'kind': 'monitor', 'name': mon_vo, 'detail': lib.first_coq_error(log) or 'did not compile'})
 
+    # ---- thorough: re-check the property's compiled cone with the independent checker coqchk
+    coqchk = None
+    if tier == 'thorough' and status.get(prop_vo) and not replay:
+        mod = 'PV.' + prop_vo[len('theories/'):-3].replace('/', '.')
+        with lib.BuildLock():
+            try:
+                rc, out, err = lib.sh(['timeout', '1500', 'coqchk', '-silent', '-o', '-Q', 'theories', 'PV', mod],
+                                      cwd=lib.ROCQ, timeout=1600)
+            except Exception as e:  # noqa
+                rc, out, err = 124, '', 'coqchk did not finish: %r' % (e,)
+        txt = out + err
+        import re as _re
+        m = _re.search(r'\* Axioms:(.*?)\n\s*\n\* Constants/Inductives relying on type-in-type:(.*?)\n\s*\n'
+                       r'\* Constants/Inductives relying on unsafe \(co\)fixpoints:(.*?)\n\s*\n'
+                       r'\* Inductives whose positivity is assumed:(.*?)\n', txt, _re.S)
+        if rc == 0 and m:
+            fields = [' '.join(g.split()) for g in m.groups()]
+            coqchk = {'module': mod, 'axioms': fields[0], 'type_in_type': fields[1], 'unsafe_fixpoints': fields[2],
+                      'assumed_positivity': fields[3]}
+            if any(f != '<none>' for f in fields[1:]) or (fields[0] != '<none>' and not all(
+                    any(ok in a for ok in prop_allowed_axioms(prop)) for a in fields[0].split())):
+                broken.append({'kind': 'proof', 'name': 'coqchk ' + mod, 'detail': str(coqchk)})
+        else:
+            broken.append({'kind': 'proof', 'name': 'coqchk ' + mod, 'detail': txt[-1500:]})
+
     n_obl = len(thms) + len(prop.COQ_EXTRA) + n_kernels
     axioms = sorted(set(a for a in assumptions if a != 'closed'))
     if status.get(prop_vo) and len([a for a in assumptions]) < len(thms):
@@ -192,6 +217,7 @@ def run_check(prop, tier, seed, replay=None):
             'known_findings_printed': sorted(printed_known),
             'search': searched and {'evaluations': searched.get('evaluations', 0), 'found': len(searched['violations'])},
             'partial': getattr(prop, 'PARTIAL', ''),
+            'coqchk': coqchk,
         },
         'assumptions': list(getattr(prop, 'ASSUMPTIONS', [])) + notes,
         'wall_s': round(time.time() - t0, 2),
